@@ -217,7 +217,7 @@ func SimC13(c *CheckCtx, i int, r *Rng) error {
 		eps = all
 	}
 	args := proto.GenArgs{Entrypoint: spell(r, m, eps), Base: base}
-	sc := &Scenario{Kind: "universe", Module: m, Base: base}
+	sc := &Scenario{Kind: "universe", Module: m, Base: base, LinkedRoot: i%4 == 2}
 	for _, s := range []string{"asc", "desc"} {
 		sc.Variants = append(sc.Variants, Variant{Name: "sched:" + s, Ops: []Op{{Kind: "run", Run: &RunOp{Args: args, Sched: schedOf(s, 0)}}}})
 	}
